@@ -709,14 +709,86 @@ Proof.
 Qed.
 
 (* ------------------------------------------------------------------------------------------------ (vi) endpoints *)
+(* "fed as lies": the model's data are the data it was built from followed by the pending points, all carrying the value v and the
+   lie noise, and the ordinary (constant-liar) optimiser runs with an empty pending set *)
+Definition fed_as_lies (h : hist) (pending : list point) (v : Q) (f : gp_feed) : Prop :=
+  f_use_qei f = false /\ f_pending_set f = [] /\
+  h_dim (f_hist f) = h_dim h /\
+  h_pts (f_hist f) = h_pts h ++ pending /\
+  h_vals (f_hist f) = h_vals h ++ repeat v (length pending) /\
+  h_noise (f_hist f) = h_noise h ++ repeat lie_noise (length pending).
+(* "fed as the pending set": parallel EI runs on the data as built, with exactly the pending points as its pending set *)
+Definition fed_as_pending_set (h : hist) (pending : list point) (f : gp_feed) : Prop :=
+  f_use_qei f = true /\ f_pending_set f = pending /\ f_hist f = h.
+Definition pending_fed (h : hist) (pending : list point) (f : gp_feed) : Prop :=
+  (exists v, fed_as_lies h pending v f) \/ fed_as_pending_set h pending f.
+
+Lemma pending_fed_meaning h pending f :
+  pending_fed h pending f <->
+  ((exists v, f_use_qei f = false /\ f_pending_set f = [] /\ h_dim (f_hist f) = h_dim h /\
+      h_pts (f_hist f) = h_pts h ++ pending /\
+      h_vals (f_hist f) = h_vals h ++ repeat v (length pending) /\
+      h_noise (f_hist f) = h_noise h ++ repeat lie_noise (length pending))
+   \/ (f_use_qei f = true /\ f_pending_set f = pending /\ f_hist f = h)).
+Proof. reflexivity. Qed.
+
+Lemma feed_gp_constant_liar mt h pending lie : dims_ok (h_dim h) pending ->
+  exists f, feed_gp ConstantLiar mt h pending lie = inl f /\ fed_as_lies h pending lie f.
+Proof.
+  intros Hd. unfold feed_gp.
+  destruct (append_historical_data_ok h pending (repeat lie (length pending)) (repeat lie_noise (length pending)) Hd)
+    as (h' & -> & Hdim & Hnil & Hcons).
+  eexists. split; [reflexivity|]. unfold fed_as_lies. cbn [f_hist f_use_qei f_pending_set].
+  split; [reflexivity|]. split; [reflexivity|]. split; [exact Hdim|]. destruct pending as [|p r].
+  - rewrite (Hnil eq_refl). cbn. rewrite !app_nil_r. repeat split.
+  - apply Hcons. discriminate.
+Qed.
+
+Lemma feed_gp_qei_single h pending lie : pending <> [] -> feed_gp QEI false h pending lie = inl (mkFeed h pending true).
+Proof. intros Hne. unfold feed_gp. destruct pending; [congruence|reflexivity]. Qed.
+
+(* the repaired branch: qEI requested on a multitask request - the pending points are appended by append_lie_data, so they carry
+   the worst value of the model's OWN data (not the lie value the view computed) *)
+Lemma feed_gp_qei_multitask h pending lie : hist_wf h -> dims_ok (h_dim h) pending -> pending <> [] ->
+  exists v f, worst LieMin (h_vals h) v /\ feed_gp QEI true h pending lie = inl f /\ fed_as_lies h pending v f.
+Proof.
+  intros Hwf Hd Hne. unfold feed_gp.
+  destruct (gp_append_spec (mkGp h None) pending LieMin Hwf Hd) as (v & Hw & Herr & _ & Hdim & Hp & Hv & Hn).
+  cbn [g_hist] in *. exists v.
+  destruct pending as [|p r]; [congruence|]. cbn [length Nat.eqb negb andb].
+  destruct (gp_append (mkGp h None) (p :: r) LieMin) as [g e]. cbn [fst snd] in *. subst e.
+  eexists. split; [exact Hw|]. split; [reflexivity|].
+  unfold fed_as_lies. cbn [f_hist f_use_qei f_pending_set]. repeat split; assumption.
+Qed.
+
+Lemma feed_gp_qei_nothing_pending mt h lie : feed_gp QEI mt h [] lie = inl (mkFeed h [] false).
+Proof. reflexivity. Qed.
+
+Lemma feed_gp_feeds par mt h pending lie : hist_wf h -> dims_ok (h_dim h) pending ->
+  exists f, feed_gp par mt h pending lie = inl f /\ pending_fed h pending f.
+Proof.
+  intros Hwf Hd. destruct par.
+  - destruct (feed_gp_constant_liar mt h pending lie Hd) as (f & Hf & Hl). exists f. split; [exact Hf|]. left. exists lie. exact Hl.
+  - destruct pending as [|p r].
+    + eexists. split; [apply feed_gp_qei_nothing_pending|]. left. exists lie. unfold fed_as_lies. cbn. rewrite !app_nil_r. repeat split.
+    + destruct mt.
+      * destruct (feed_gp_qei_multitask h (p :: r) lie Hwf Hd) as (v & f & _ & Hf & Hl); [discriminate|].
+        exists f. split; [exact Hf|]. left. exists v. exact Hl.
+      * eexists. split; [apply feed_gp_qei_single; discriminate|]. right. unfold fed_as_pending_set. cbn. repeat split.
+Qed.
+
 Theorem pending_points_fed :
+  (* the GP endpoint, every combination of parallelism and multitask: lies in the data, or the pending set of parallel EI *)
+  (forall par mt h pending lie, hist_wf h -> dims_ok (h_dim h) pending ->
+     exists f, feed_gp par mt h pending lie = inl f /\ pending_fed h pending f) /\
+  (* ... which of the two, and which lie value *)
   (forall mt h pending lie, dims_ok (h_dim h) pending ->
-     exists f, feed_gp ConstantLiar mt h pending lie = inl f /\ f_use_qei f = false /\
-       h_pts (f_hist f) = h_pts h ++ pending /\
-       h_vals (f_hist f) = h_vals h ++ repeat lie (length pending) /\
-       h_noise (f_hist f) = h_noise h ++ repeat lie_noise (length pending)) /\
+     exists f, feed_gp ConstantLiar mt h pending lie = inl f /\ fed_as_lies h pending lie f) /\
   (forall h pending lie, pending <> [] ->
-     feed_gp QEI false h pending lie = inl (mkFeed h pending true)) /\
+     exists f, feed_gp QEI false h pending lie = inl f /\ fed_as_pending_set h pending f) /\
+  (forall h pending lie, hist_wf h -> dims_ok (h_dim h) pending -> pending <> [] ->
+     exists v f, worst LieMin (h_vals h) v /\ feed_gp QEI true h pending lie = inl f /\ fed_as_lies h pending v f) /\
+  (* the Parzen endpoint and the search endpoint *)
   (forall s pending, dims_ok (p_dim s) pending ->
      let s' := fst (feed_parzen s pending) in
      snd (feed_parzen s pending) = None /\ p_greater s' = p_greater s ++ pending /\
@@ -724,18 +796,27 @@ Theorem pending_points_fed :
   (forall to_cube sampled pending d,
      repulsors (feed_search to_cube sampled pending d) = map to_cube sampled ++ map to_cube pending).
 Proof.
-  split; [|split; [|split]].
-  - intros mt h pending lie Hd. unfold feed_gp.
-    destruct (append_historical_data_ok h pending (repeat lie (length pending)) (repeat lie_noise (length pending)) Hd)
-      as (h' & -> & _ & Hnil & Hcons).
-    eexists. split; [reflexivity|]. split; [reflexivity|]. cbn [f_hist]. destruct pending as [|p r].
-    + rewrite (Hnil eq_refl). cbn. rewrite !app_nil_r. repeat split.
-    + apply Hcons. discriminate.
-  - intros h pending lie Hne. unfold feed_gp. destruct pending; [congruence|reflexivity].
+  split; [|split; [|split; [|split; [|split]]]].
+  - exact feed_gp_feeds.
+  - exact feed_gp_constant_liar.
+  - intros h pending lie Hne. eexists. split; [apply feed_gp_qei_single; exact Hne|]. unfold fed_as_pending_set. cbn. repeat split.
+  - exact feed_gp_qei_multitask.
   - intros s pending Hd. unfold feed_parzen. rewrite (pz_append_spec s pending false Hd). cbn. repeat split.
   - intros. unfold feed_search. cbn. apply map_app.
 Qed.
 
-(* a multitask request with qEI parallelism: the pending points reach neither the data nor a pending set *)
-Lemma feed_gp_qei_multitask_drops h pending lie : feed_gp QEI true h pending lie = inl (mkFeed h [] false).
-Proof. unfold feed_gp. rewrite andb_false_r. reflexivity. Qed.
+(* the GPs under the failure model: lies (with the view's lie value) under constant liar, untouched under qEI *)
+Lemma failure_gp_feed :
+  (forall h pending lie, dims_ok (h_dim h) pending ->
+     exists h', feed_failure_gp ConstantLiar h pending lie = inl h' /\ h_dim h' = h_dim h /\
+       h_pts h' = h_pts h ++ pending /\ h_vals h' = h_vals h ++ repeat lie (length pending) /\
+       h_noise h' = h_noise h ++ repeat lie_noise (length pending)) /\
+  (forall h pending lie, feed_failure_gp QEI h pending lie = inl h).
+Proof.
+  split; [|reflexivity]. intros h pending lie Hd. unfold feed_failure_gp.
+  destruct (append_historical_data_ok h pending (repeat lie (length pending)) (repeat lie_noise (length pending)) Hd)
+    as (h' & -> & Hdim & Hnil & Hcons).
+  exists h'. split; [reflexivity|]. split; [exact Hdim|]. destruct pending as [|p r].
+  - rewrite (Hnil eq_refl). cbn. rewrite !app_nil_r. repeat split.
+  - apply Hcons. discriminate.
+Qed.
